@@ -18,13 +18,13 @@ open BS BS.EncodingIn
     the documented list: known definite, BOM, user, declared, utf-8, windows-1252 — minus excluded,
     first occurrence (ignoring case) only. -/
 theorem encodings_eq_candidates (known : List Name) (bom : Option Name) (user : List Name)
-    (declared : Option Name) (excl : List Name) :
-    encodingsImpl known bom user declared excl = candidates known bom user declared excl := by
+    (declared chardet : Option Name) (excl : List Name) :
+    encodingsImpl known bom user declared chardet excl = candidates known bom user declared chardet excl := by
   rw [encodingsImpl_eq_yieldAll, yieldAll_fst]
   simp [candidates]
 
 example : encodingsImpl [ofS "Latin-1", ofS "utf-8"] (some utf16le) [ofS "LATIN-1", ofS "koi8-r"] (some (ofS "UTF-8"))
-    [ofS "koi8-r"] = [ofS "Latin-1", ofS "utf-8", utf16le, ofS "windows-1252"] := by decide
+    (some (ofS "Big5")) [ofS "koi8-r"] = [ofS "Latin-1", ofS "utf-8", utf16le, ofS "Big5", ofS "windows-1252"] := by decide
 
 /-- The generated last-ditch list is the documented one, in the documented order. -/
 theorem fallback_is_utf8_then_windows1252 :
@@ -32,9 +32,9 @@ theorem fallback_is_utf8_then_windows1252 :
 
 /-- Candidates come from the sources, in source order (a sublist), and none is excluded. -/
 theorem candidates_in_order (known : List Name) (bom : Option Name) (user : List Name)
-    (declared : Option Name) (excl : List Name) :
-    (candidates known bom user declared excl).Sublist (sources known bom user declared) ∧
-    ∀ c ∈ candidates known bom user declared excl, excl.contains (lower c) = false := by
+    (declared chardet : Option Name) (excl : List Name) :
+    (candidates known bom user declared chardet excl).Sublist (sources known bom user declared chardet) ∧
+    ∀ c ∈ candidates known bom user declared chardet excl, excl.contains (lower c) = false := by
   constructor
   · exact (dedupLower_sublist _).trans List.filter_sublist
   · intro c hc
@@ -43,18 +43,18 @@ theorem candidates_in_order (known : List Name) (bom : Option Name) (user : List
 
 /-- Each encoding is tried once: no two candidates are equal ignoring case. -/
 theorem each_candidate_once (known : List Name) (bom : Option Name) (user : List Name)
-    (declared : Option Name) (excl : List Name) :
-    (candidates known bom user declared excl).Pairwise (fun a b => lower a ≠ lower b) :=
+    (declared chardet : Option Name) (excl : List Name) :
+    (candidates known bom user declared chardet excl).Pairwise (fun a b => lower a ≠ lower b) :=
   dedupLower_pairwise _
 
 /-- Nothing is lost: every source that is not excluded is represented (ignoring case) by a
     candidate, and the representative is the FIRST such source. -/
 theorem candidates_complete (known : List Name) (bom : Option Name) (user : List Name)
-    (declared : Option Name) (excl : List Name) :
-    (∀ x ∈ sources known bom user declared, excl.contains (lower x) = false →
-      ∃ c ∈ candidates known bom user declared excl, lower c = lower x) ∧
-    (∀ pre x post, sources known bom user declared = pre ++ x :: post → excl.contains (lower x) = false →
-      (∀ y ∈ pre, lower y ≠ lower x) → x ∈ candidates known bom user declared excl) := by
+    (declared chardet : Option Name) (excl : List Name) :
+    (∀ x ∈ sources known bom user declared chardet, excl.contains (lower x) = false →
+      ∃ c ∈ candidates known bom user declared chardet excl, lower c = lower x) ∧
+    (∀ pre x post, sources known bom user declared chardet = pre ++ x :: post → excl.contains (lower x) = false →
+      (∀ y ∈ pre, lower y ≠ lower x) → x ∈ candidates known bom user declared chardet excl) := by
   constructor
   · intro x hx he
     exact dedupLower_complete _ x (List.mem_filter.mpr ⟨hx, by rw [he]; rfl⟩)
@@ -64,7 +64,7 @@ theorem candidates_complete (known : List Name) (bom : Option Name) (user : List
     simp only [he, Bool.not_false, if_true]
     exact dedupLower_first _ _ x (fun y hy => hpre y (List.mem_filter.mp hy).1)
 
-example : candidates [ofS "A", ofS "a"] none [] none [] = [ofS "A", utf8, ofS "windows-1252"] := by
+example : candidates [ofS "A", ofS "a"] none [] none none [] = [ofS "A", utf8, ofS "windows-1252"] := by
   rw [← encodings_eq_candidates]; decide
 
 /-! ## the result of UnicodeDammit -/
@@ -76,11 +76,11 @@ theorem dammit_eq_spec (C : Codecs) (a : Args) (b : Bytes) (hb : b ≠ []) :
     ((dammit C a (.bytes b)).text, (dammit C a (.bytes b)).originalEncoding,
       (dammit C a (.bytes b)).containsReplacement) =
     dammitSpec C (stripBom b).1
-      (candidates (a.known ++ a.override) (stripBom b).2 a.user (findDeclared (stripBom b).1 a.isHtml) (exclSet a)) := by
+      (candidatesOf C a b) := by
   have hne : b.isEmpty = false := by cases b <;> simp_all
   have h := (dammitBytes_spec C a (stripBom b).1 (stripBom b).2 (findDeclared (stripBom b).1 a.isHtml)).1
   simp only [detectorEncodings, encodings_eq_candidates] at h
-  simpa [dammit, hne] using h
+  simpa [dammit, hne, candidatesOf] using h
 
 /-- what "decodes under candidate c" means: `find_codec` resolves the name, and the strict (or
     replace) decoder returns a string -/
@@ -108,7 +108,7 @@ theorem attempt_iff (C : Codecs) (data : Bytes) (rep : Bool) (c r : Name) (u : P
     the codec name the candidate resolves to; no replacement is flagged. -/
 theorem dammit_first_clean (C : Codecs) (a : Args) (b : Bytes) (hb : b ≠ [])
     (pre post : List Name) (c r : Name) (u : PStr)
-    (hc : candidates (a.known ++ a.override) (stripBom b).2 a.user (findDeclared (stripBom b).1 a.isHtml) (exclSet a)
+    (hc : candidatesOf C a b
       = pre ++ c :: post)
     (hpre : ∀ x ∈ pre, ∀ r', findCodec C x = some r' → C.decodeStrict r' (stripBom b).1 = none)
     (hr : findCodec C c = some r) (hu : C.decodeStrict r (stripBom b).1 = some u) :
@@ -141,12 +141,12 @@ theorem dammit_first_clean (C : Codecs) (a : Args) (b : Bytes) (hb : b ≠ [])
     candidate other than "ascii" decodes with replacement characters. -/
 theorem replacement_iff (C : Codecs) (a : Args) (b : Bytes) (hb : b ≠ []) :
     (dammit C a (.bytes b)).containsReplacement = true ↔
-      (∀ c ∈ candidates (a.known ++ a.override) (stripBom b).2 a.user (findDeclared (stripBom b).1 a.isHtml) (exclSet a),
+      (∀ c ∈ candidatesOf C a b,
           attempt C (stripBom b).1 false c = none) ∧
-      (∃ c ∈ candidates (a.known ++ a.override) (stripBom b).2 a.user (findDeclared (stripBom b).1 a.isHtml) (exclSet a),
+      (∃ c ∈ candidatesOf C a b,
           c ≠ ascii ∧ (attempt C (stripBom b).1 true c).isSome) := by
   have h := dammit_eq_spec C a b hb
-  generalize candidates (a.known ++ a.override) (stripBom b).2 a.user (findDeclared (stripBom b).1 a.isHtml) (exclSet a) = cands at h
+  generalize candidatesOf C a b = cands at h
   unfold dammitSpec at h
   cases hf : cands.findSome? (attempt C (stripBom b).1 false) with
   | some ru =>
@@ -184,10 +184,10 @@ theorem replacement_iff (C : Codecs) (a : Args) (b : Bytes) (hb : b ≠ []) :
     original_encoding — the case `prepare_markup` turns into ParserRejectedMarkup. -/
 theorem no_text_iff (C : Codecs) (a : Args) (b : Bytes) (hb : b ≠ []) :
     (dammit C a (.bytes b)).text = none ↔
-      (∀ c ∈ candidates (a.known ++ a.override) (stripBom b).2 a.user (findDeclared (stripBom b).1 a.isHtml) (exclSet a),
+      (∀ c ∈ candidatesOf C a b,
           attempt C (stripBom b).1 false c = none ∧ (c ≠ ascii → attempt C (stripBom b).1 true c = none)) := by
   have h := dammit_eq_spec C a b hb
-  generalize candidates (a.known ++ a.override) (stripBom b).2 a.user (findDeclared (stripBom b).1 a.isHtml) (exclSet a) = cands at h
+  generalize candidatesOf C a b = cands at h
   unfold dammitSpec at h
   cases hf : cands.findSome? (attempt C (stripBom b).1 false) with
   | some ru =>
@@ -238,7 +238,7 @@ theorem str_passthrough (C : Codecs) (a : Args) (s : PStr) :
     (dammit C a (.str s)).text = some s ∧ (dammit C a (.str s)).originalEncoding = none ∧
     (dammit C a (.str s)).containsReplacement = false ∧ (dammit C a (.str s)).declaredHtml = none ∧
     ∀ fromEnc excl, prepareMarkup C (.str s) fromEnc excl = .ok s none none false := by
-  simp [dammit, prepareMarkup]
+  simp [dammit, prepareMarkup, prepareMarkupFull]
 
 /-- The empty byte string gives the empty text (repaired: the unrepaired code gives `"b''"`). -/
 theorem empty_bytes (C : Codecs) (a : Args) :
@@ -308,9 +308,9 @@ theorem bom_probes_agree : Gen.bomProbes.all (fun t => stripBom t.1 == (t.2.1, t
   decide +kernel
 
 /-- With no known-definite encoding, the BOM's encoding is the first candidate (unless excluded). -/
-theorem bom_first_candidate (n : Name) (user : List Name) (declared : Option Name) (excl : List Name)
+theorem bom_first_candidate (n : Name) (user : List Name) (declared chardet : Option Name) (excl : List Name)
     (h : excl.contains (lower n) = false) :
-    ∃ rest, candidates [] (some n) user declared excl = n :: rest := by
+    ∃ rest, candidates [] (some n) user declared chardet excl = n :: rest := by
   unfold candidates sources
   simp only [List.nil_append, Option.toList_some, List.cons_append, List.filter_cons, h, Bool.not_false, if_true,
     dedupLower_cons]
@@ -323,10 +323,10 @@ example : stripBom [0xff, 0xfe, 0x00, 0x00, 0x61, 0, 0, 0] = ([0x61, 0, 0, 0], s
 /-! ## UTF-8 by default, and what the constructor adds -/
 
 /-- Bytes that are valid UTF-8, with no contrary indication (no known/override/user encodings, no BOM,
-    no declaration, utf-8 not excluded), are decoded as UTF-8. -/
+    no declaration, no guess from a chardet-like library, utf-8 not excluded), are decoded as UTF-8. -/
 theorem utf8_default (C : Codecs) (a : Args) (b : Bytes) (u : PStr) (hb : b ≠ [])
     (hk : a.known = []) (ho : a.override = []) (hu : a.user = [])
-    (hbom : stripBom b = (b, none)) (hdecl : findDeclared b a.isHtml = none)
+    (hbom : stripBom b = (b, none)) (hdecl : findDeclared b a.isHtml = none) (hch : C.chardet b = none)
     (hx : (exclSet a).contains utf8 = false)
     (hex : C.codecExists utf8 = true) (hdec : C.decodeStrict utf8 b = some u) :
     (dammit C a (.bytes b)).text = some u ∧ (dammit C a (.bytes b)).originalEncoding = some utf8 ∧
@@ -337,10 +337,11 @@ theorem utf8_default (C : Codecs) (a : Args) (b : Bytes) (u : PStr) (hb : b ≠ 
     have h3 : utf8.isEmpty = false := by decide
     simp only [findCodec, codec, h1, h3, hex, h2, Bool.false_eq_true, if_false, if_true]
   have hl : lower utf8 = utf8 := by decide
-  have hcands : ∃ rest, candidates (a.known ++ a.override) (stripBom b).2 a.user (findDeclared (stripBom b).1 a.isHtml) (exclSet a)
+  have hcands : ∃ rest, candidatesOf C a b
       = [] ++ utf8 :: rest := by
+    unfold candidatesOf
     rw [hbom]
-    simp only [hk, ho, hu, hdecl, candidates, sources, fallback_is_utf8_then_windows1252, List.append_nil, Option.toList_none,
+    simp only [hk, ho, hu, hdecl, hch, candidates, sources, fallback_is_utf8_then_windows1252, List.append_nil, Option.toList_none,
       List.nil_append, List.filter_cons, hl, hx, Bool.not_false, if_true, dedupLower_cons]
     exact ⟨_, rfl⟩
   obtain ⟨rest, hc⟩ := hcands
@@ -355,15 +356,15 @@ theorem from_encoding_first (C : Codecs) (b : Bytes) (e r : Name) (u : PStr) (ex
     ∃ d, prepareMarkup C (.bytes b) (some e) excl = .ok u (some r) d false := by
   have hne : e.isEmpty = false := by cases e <;> simp_all
   let a : Args := { known := [e], user := [], exclude := excl, isHtml := true }
-  have hc : ∃ rest, candidates (a.known ++ a.override) (stripBom b).2 a.user (findDeclared (stripBom b).1 a.isHtml) (exclSet a)
+  have hc : ∃ rest, candidatesOf C a b
       = [] ++ e :: rest := by
-    simp only [a, candidates, sources, exclSet, List.append_nil, List.cons_append, List.nil_append, List.filter_cons, hx,
+    simp only [a, candidatesOf, candidates, sources, exclSet, List.append_nil, List.cons_append, List.nil_append, List.filter_cons, hx,
       Bool.not_false, if_true, dedupLower_cons]
     exact ⟨_, rfl⟩
   obtain ⟨rest, hc⟩ := hc
   obtain ⟨h1, h2, h3⟩ := dammit_first_clean C a b hb [] rest e r u hc (fun x hx => by cases hx) hr hu
   refine ⟨(dammit C a (.bytes b)).declaredHtml, ?_⟩
-  simp only [prepareMarkup, knownOfFromEncoding, hne, Bool.false_eq_true, if_false]
+  simp only [prepareMarkup, prepareMarkupFull, knownOfFromEncoding, hne, Bool.false_eq_true, if_false]
   show (match (dammit C a (.bytes b)).text with
     | none => Prepared.rejected
     | some t => Prepared.ok t (dammit C a (.bytes b)).originalEncoding (dammit C a (.bytes b)).declaredHtml
@@ -374,8 +375,8 @@ theorem from_encoding_first (C : Codecs) (b : Bytes) (e r : Name) (u : PStr) (ex
 theorem prepare_rejected_iff (C : Codecs) (b : Bytes) (fromEnc : Option Name) (excl : List Name) :
     prepareMarkup C (.bytes b) fromEnc excl = .rejected ↔
       (dammit C { known := knownOfFromEncoding fromEnc, user := [], exclude := excl, isHtml := true } (.bytes b)).text = none := by
-  unfold prepareMarkup
-  dsimp only
+  unfold prepareMarkup prepareMarkupFull
+  dsimp only [knownOfFromEncoding]
   split
   · rename_i h; exact ⟨fun _ => h, fun _ => rfl⟩
   · rename_i t h
@@ -384,7 +385,7 @@ theorem prepare_rejected_iff (C : Codecs) (b : Bytes) (fromEnc : Option Name) (e
     · intro h'; rw [h] at h'; cases h'
 
 /-- Rejection really happens: exclude the two last-ditch encodings and give nothing else. -/
-example : prepareMarkup ⟨fun _ => true, fun _ _ => some [], fun _ _ => some []⟩ (.bytes [65]) none
+example : prepareMarkup ⟨fun _ => true, fun _ _ => some [], fun _ _ => some [], fun _ => none⟩ (.bytes [65]) none
     [ofS "UTF-8", ofS "windows-1252"] = .rejected := by decide
 
 /-! ## the declared encoding -/
@@ -588,6 +589,151 @@ theorem declared_html_encoding_of_meta (C : Codecs) (a : Args) (doc name : Bytes
   rw [declared_reported, ha, hbom]
   simpa using hd
 
+/-! ## UnicodeDammit always produces text (for lawful codecs), and where the result comes from -/
+
+/-- Over the WHOLE generated alias table: no key is (a spelling of) one of the two last-ditch names,
+    so those are never redirected. -/
+theorem alias_keys_are_not_the_fallbacks :
+    Gen.charsetAliases.all (fun kv => lower kv.1 != utf8 && lower kv.1 != windows1252) = true := by
+  decide +kernel
+
+/-- Any spelling (case) of utf-8 / windows-1252 resolves to the lower-case name, given that
+    `codecs.lookup` ignores case and knows the two. -/
+theorem fallback_resolves (C : Codecs) (L : Lawful C) (c : Name) (h : lower c = utf8 ∨ lower c = windows1252) :
+    findCodec C c = some (lower c) := by
+  have hal : aliasOf c = c := by
+    unfold aliasOf
+    cases hl : Gen.charsetAliases.lookup c with
+    | none => rfl
+    | some v =>
+      have hm := lookup_some_mem _ _ _ hl
+      have := List.all_eq_true.mp alias_keys_are_not_the_fallbacks _ hm
+      simp only [Bool.and_eq_true, bne_iff_ne, ne_eq] at this
+      rcases h with h | h
+      · exact absurd h this.1
+      · exact absurd h this.2
+  have hne : c.isEmpty = false := by
+    cases c with
+    | nil => rcases h with h | h <;> cases h
+    | cons x t => rfl
+  have hex : C.codecExists c = true := by
+    rw [L.lookup_ignores_case]
+    rcases h with h | h
+    · rw [h]; exact L.utf8_exists
+    · rw [h]; exact L.cp1252_exists
+  simp only [findCodec, codec, hal, hne, hex, Bool.false_eq_true, if_false, if_true]
+
+/-- TOTALITY. For lawful codecs, a non-empty byte string always gets a text unless BOTH last-ditch
+    encodings are excluded: whatever the arguments, the BOM, the declaration, the chardet guess. -/
+theorem dammit_total (C : Codecs) (L : Lawful C) (a : Args) (b : Bytes) (hb : b ≠ [])
+    (hx : (exclSet a).contains utf8 = false ∨ (exclSet a).contains windows1252 = false) :
+    (dammit C a (.bytes b)).text.isSome = true := by
+  cases ht : (dammit C a (.bytes b)).text with
+  | some t => rfl
+  | none =>
+    exfalso
+    have hall := (no_text_iff C a b hb).mp ht
+    have key : ∀ n : Name, (n = utf8 ∨ n = windows1252) → lower n = n → (exclSet a).contains n = false →
+        (∀ d, (C.decodeReplace n d).isSome = true) → False := by
+      intro n hn hln hxn htot
+      have hsrc : n ∈ sources (a.known ++ a.override) (stripBom b).2 a.user (findDeclared (stripBom b).1 a.isHtml)
+          (C.chardet (stripBom b).1) := by
+        unfold sources
+        rw [fallback_is_utf8_then_windows1252]
+        apply List.mem_append_right
+        rcases hn with rfl | rfl
+        · exact List.mem_cons_self
+        · exact List.mem_cons_of_mem _ List.mem_cons_self
+      obtain ⟨c, hc, hlc⟩ := (candidates_complete _ _ _ _ _ _).1 n hsrc (by rw [hln]; exact hxn)
+      rw [hln] at hlc
+      have hres : findCodec C c = some n := by
+        have := fallback_resolves C L c (by rcases hn with rfl | rfl; exact Or.inl hlc; exact Or.inr hlc)
+        rw [hlc] at this; exact this
+      have hasc : c ≠ ascii := by
+        intro h; subst h
+        rcases hn with rfl | rfl <;> revert hlc <;> decide
+      have h2 := (hall c hc).2 hasc
+      obtain ⟨u, hu⟩ := Option.isSome_iff_exists.mp (htot (stripBom b).1)
+      have : attempt C (stripBom b).1 true c = some (n, u) := (attempt_iff C _ true c n u).mpr ⟨hres, by simpa using hu⟩
+      rw [this] at h2; cases h2
+    rcases hx with hx | hx
+    · exact key utf8 (Or.inl rfl) (by decide) hx L.utf8_replace_total
+    · exact key windows1252 (Or.inr rfl) (by decide) hx L.cp1252_replace_total
+
+/-- … hence `prepare_markup` (and the BeautifulSoup constructor) never raises ParserRejectedMarkup for
+    lawful codecs unless both last-ditch encodings are excluded. -/
+theorem prepare_never_rejects (C : Codecs) (L : Lawful C) (m : Markup) (fromEnc docDecl : Option Name) (excl : List Name)
+    (hx : (excl.map lower).contains utf8 = false ∨ (excl.map lower).contains windows1252 = false) :
+    prepareMarkupFull C m fromEnc docDecl excl ≠ .rejected := by
+  cases m with
+  | str s => simp [prepareMarkupFull]
+  | bytes b =>
+    unfold prepareMarkupFull
+    dsimp only
+    by_cases hb : b = []
+    · subst hb
+      have : (dammit C { known := knownOfFromEncoding fromEnc, user := knownOfFromEncoding docDecl, exclude := excl, isHtml := true }
+          (.bytes [])).text = some [] := (empty_bytes C _).1
+      rw [this]; simp
+    · have := dammit_total C L { known := knownOfFromEncoding fromEnc, user := knownOfFromEncoding docDecl, exclude := excl, isHtml := true }
+        b hb hx
+      obtain ⟨t, ht⟩ := Option.isSome_iff_exists.mp this
+      rw [ht]; simp
+
+/-- WHICH ENCODING WINS in the replace pass: when no candidate decodes cleanly, the first candidate other
+    than "ascii" that decodes with replacement gives the text and `original_encoding`, flag set. -/
+theorem dammit_replace_winner (C : Codecs) (a : Args) (b : Bytes) (hb : b ≠ [])
+    (pre post : List Name) (c r : Name) (u : PStr)
+    (hstrict : ∀ x ∈ candidatesOf C a b, attempt C (stripBom b).1 false x = none)
+    (hc : (candidatesOf C a b).filter (· != ascii) = pre ++ c :: post)
+    (hpre : ∀ x ∈ pre, attempt C (stripBom b).1 true x = none)
+    (hcu : attempt C (stripBom b).1 true c = some (r, u)) :
+    (dammit C a (.bytes b)).text = some u ∧ (dammit C a (.bytes b)).originalEncoding = some r ∧
+    (dammit C a (.bytes b)).containsReplacement = true := by
+  have h := dammit_eq_spec C a b hb
+  have h1 : (candidatesOf C a b).findSome? (attempt C (stripBom b).1 false) = none :=
+    List.findSome?_eq_none_iff.mpr hstrict
+  have h2 : ((candidatesOf C a b).filter (· != ascii)).findSome? (attempt C (stripBom b).1 true) = some (r, u) := by
+    rw [hc, List.findSome?_append, List.findSome?_eq_none_iff.mpr hpre]
+    simp [hcu]
+  simp only [dammitSpec, h1, h2, Prod.mk.injEq] at h
+  exact h
+
+/-- The result never comes from outside the candidate list: whenever there is a text, it is the strict
+    or (flag set) the replace decoding of the BOM-stripped bytes under some candidate, and
+    `original_encoding` is the codec name that candidate resolves to. -/
+theorem result_comes_from_a_candidate (C : Codecs) (a : Args) (b : Bytes) (hb : b ≠ []) (u : PStr)
+    (ht : (dammit C a (.bytes b)).text = some u) :
+    ∃ c ∈ candidatesOf C a b, ∃ r, findCodec C c = some r ∧ (dammit C a (.bytes b)).originalEncoding = some r ∧
+      (if (dammit C a (.bytes b)).containsReplacement then C.decodeReplace r (stripBom b).1 else C.decodeStrict r (stripBom b).1) = some u := by
+  have h := dammit_eq_spec C a b hb
+  unfold dammitSpec at h
+  cases hf : (candidatesOf C a b).findSome? (attempt C (stripBom b).1 false) with
+  | some ru =>
+    obtain ⟨r, u'⟩ := ru
+    simp only [hf, Prod.mk.injEq] at h
+    obtain ⟨c, hc, hcu⟩ := List.exists_of_findSome?_eq_some hf
+    have := (attempt_iff C _ false c r u').mp hcu
+    rw [ht] at h
+    have hu : u = u' := Option.some.inj h.1
+    subst hu
+    exact ⟨c, hc, r, this.1, h.2.1, by rw [h.2.2]; simpa using this.2⟩
+  | none =>
+    simp only [hf] at h
+    cases hg : ((candidatesOf C a b).filter (· != ascii)).findSome? (attempt C (stripBom b).1 true) with
+    | some ru =>
+      obtain ⟨r, u'⟩ := ru
+      simp only [hg, Prod.mk.injEq] at h
+      obtain ⟨c, hc, hcu⟩ := List.exists_of_findSome?_eq_some hg
+      have := (attempt_iff C _ true c r u').mp hcu
+      rw [ht] at h
+      have hu : u = u' := Option.some.inj h.1
+      subst hu
+      exact ⟨c, (List.mem_filter.mp hc).1, r, this.1, h.2.1, by rw [h.2.2]; simpa using this.2⟩
+    | none =>
+      simp only [hg, Prod.mk.injEq] at h
+      rw [ht] at h; cases h.1
+
 /-! ## non-vacuity: a toy codec oracle and instances of the hypotheses above -/
 
 /-- utf-8 and ascii exist and decode (strictly) exactly the 7-bit strings -/
@@ -611,7 +757,7 @@ example : ((dammit toy {} (.bytes [0xef, 0xbb, 0xbf])).text, (dammit toy {} (.by
     = (some [], false) := by decide
 -- the hypotheses of `dammit_first_clean` / `utf8_default` / `from_encoding_first` are satisfiable
 example : True := by
-  have := utf8_default toy {} [65] [65] (by decide) rfl rfl rfl (by decide) (by decide) (by decide) (by decide) (by decide)
+  have := utf8_default toy {} [65] [65] (by decide) rfl rfl rfl (by decide) (by decide) rfl (by decide) (by decide) (by decide)
   have := from_encoding_first toy [65] (ofS "ASCII") ascii [65] [] (by decide) (by decide) (by decide) (by decide) (by decide)
   trivial
 -- … and those of the two declaration theorems
@@ -625,6 +771,31 @@ example : True := by
     (Or.inr ⟨34, [], rfl, by decide⟩) (by decide)
   have := declared_of_wellformed_xml [10, 32] (ofS "xml version=\"1.0\" ") (ofS "Big5") (ofS " ") (ofS "\n<a/>") 34 34 false
     (by decide) (by decide) (by decide) (by decide) (by decide) (by decide) (by decide) (Or.inr ⟨_, rfl⟩) (by decide)
+  trivial
+
+/-- a lawful toy: utf-8, windows-1252 and ascii in any case; strict decoding accepts 7-bit strings only -/
+def toyLawful : Codecs where
+  codecExists n := lower n == utf8 || lower n == windows1252 || lower n == ascii
+  decodeStrict n b := if (n == utf8 || n == windows1252 || n == ascii) && b.all (· < 128) then some b else none
+  decodeReplace n b := if n == utf8 || n == windows1252 || n == ascii then some (b.map fun c => if c < 128 then c else 0xFFFD) else none
+
+theorem toyLawful_is_lawful : Lawful toyLawful where
+  lookup_ignores_case n := by simp [toyLawful, lower_idem]
+  utf8_exists := by decide
+  cp1252_exists := by decide
+  utf8_replace_total d := by simp [toyLawful]
+  cp1252_replace_total d := by simp [toyLawful, windows1252, utf8]
+
+-- the hypotheses of `dammit_total` / `prepare_never_rejects` / `dammit_replace_winner` are satisfiable, and the
+-- conclusion is not trivial: the text exists although nothing decodes strictly and utf-8 is excluded
+example : (dammit toyLawful { exclude := [ofS "UTF-8"] } (.bytes [200])).text = some [0xFFFD] ∧
+    (dammit toyLawful { exclude := [ofS "UTF-8"] } (.bytes [200])).originalEncoding = some windows1252 := by decide
+example : True := by
+  have := dammit_total toyLawful toyLawful_is_lawful { exclude := [ofS "UTF-8"] } [200] (by decide) (Or.inr (by decide))
+  have := prepare_never_rejects toyLawful toyLawful_is_lawful (.bytes [200]) (some ascii) none [ofS "UTF-8"] (Or.inr (by decide))
+  have := dammit_replace_winner toyLawful { known := [ascii] } [200] (by decide) [] [windows1252] utf8 utf8 [0xFFFD]
+    (by rw [candidatesOf, ← encodings_eq_candidates]; decide) (by rw [candidatesOf, ← encodings_eq_candidates]; decide) (by decide) (by decide)
+  have := result_comes_from_a_candidate toyLawful {} [65] (by decide) [65] (by decide)
   trivial
 
 end BS.Props.C07
